@@ -167,9 +167,19 @@ fn create_next_state<C: ContentAddrStore>(
         if tx.fee < min_fee {
             return Err(StateError::InsufficientFees(min_fee));
         } else {
+            // The fee is split exactly between the fee pool and the tips, and the two together must stay within 128 bits:
+            // the proposer's reward adds them up again. Saturating here lost part of the fee silently, and the sums at
+            // sealing (reward = pool / 65536 + tips; pool += subsidy) then overflowed - a block nobody could seal.
             let tips = tx.fee - min_fee;
-            next_state.tips.0 = next_state.tips.0.saturating_add(tips.0);
-            next_state.fee_pool.0 = next_state.fee_pool.0.saturating_add(min_fee.0);
+            let new_tips = next_state.tips.0.checked_add(tips.0);
+            let new_fee_pool = next_state.fee_pool.0.checked_add(min_fee.0);
+            match (new_tips, new_fee_pool) {
+                (Some(new_tips), Some(new_fee_pool)) if new_tips.checked_add(new_fee_pool).is_some() => {
+                    next_state.tips.0 = new_tips;
+                    next_state.fee_pool.0 = new_fee_pool;
+                }
+                _ => return Err(StateError::MalformedTx),
+            }
         }
         next_state.transactions.insert(tx.clone());
     }
